@@ -204,27 +204,29 @@ Section Frame.
         apply (union_uniform (fun h m => is_inst cfg ctx h m)); assumption.
       + apply (union_uniform (fun h m => is_inst cfg ctx h m)); assumption.
     - destruct (special_checker cfg TLiteral) as [[| | |]|]; apply uniform_const.
-    - destruct a; apply uniform_const.
+    - (* NewType *) cbn [inert] in Hi. destruct a; try apply uniform_const;
+        (destruct (newtype_recurses cfg); [now apply IHa|apply uniform_const]).
     - destruct (ctx n); apply uniform_const.
     - apply uniform_const.
     - (* Generic *)
       cbn [inert] in Hi.
       assert (Hu : forall a0, In a0 args -> forall w, uniform (fun h => is_inst cfg ctx h a0 w)).
       { intros a0 Ha w. rewrite Forall_forall in H. apply H; [assumption|]. rewrite forallb_forall in Hi. now apply Hi. }
-      destruct sp.
-      + apply (generic_uniform (fun h x => is_inst cfg ctx h x)); assumption.
-      + destruct (conv_ok cfg (AGeneric SpBuiltin o args)); [|apply uniform_const].
-        apply (generic_uniform (fun h x => is_inst cfg ctx h x)); assumption.
+      destruct sp;
+        [ apply (generic_uniform (fun h x => is_inst cfg ctx h x)); assumption
+        | (destruct (conv_ok cfg (AGeneric _ o args)); [|apply uniform_const];
+           apply (generic_uniform (fun h x => is_inst cfg ctx h x)); assumption) .. ].
     - (* TupleVar *)
-      cbn [inert] in Hi. destruct sp.
-      + apply (tuple_var_uniform (fun h x => is_inst cfg ctx h x)). intro w. now apply IHa.
-      + destruct (conv_ok cfg (ATupleVar SpBuiltin a)); [|apply uniform_const].
-        apply (tuple_var_uniform (fun h x => is_inst cfg ctx h x)). intro w. now apply IHa.
+      cbn [inert] in Hi.
+      destruct sp;
+        [ apply (tuple_var_uniform (fun h x => is_inst cfg ctx h x)); intro w; now apply IHa
+        | (destruct (conv_ok cfg (ATupleVar _ a)); [|apply uniform_const];
+           apply (tuple_var_uniform (fun h x => is_inst cfg ctx h x)); intro w; now apply IHa) .. ].
     - (* TupleEmpty *)
-      destruct sp.
-      + apply (generic_uniform (fun h x => is_inst cfg ctx h x)). intros a0 [].
-      + destruct (conv_ok cfg (ATupleEmpty SpBuiltin)); [|apply uniform_const].
-        apply (generic_uniform (fun h x => is_inst cfg ctx h x)). intros a0 [].
+      destruct sp;
+        [ apply (generic_uniform (fun h x => is_inst cfg ctx h x)); intros a0 []
+        | (destruct (conv_ok cfg (ATupleEmpty _)); [|apply uniform_const];
+           apply (generic_uniform (fun h x => is_inst cfg ctx h x)); intros a0 []) .. ].
     - (* Bare *)
       destruct (special_checker cfg o) as [[| | |]|]; try apply uniform_const.
       apply (generic_uniform (fun h x => is_inst cfg ctx h x)). intros a0 [].
